@@ -70,6 +70,8 @@ def _cmp_tables(got, exp, info, tag):
             same = all((u != u and v != v) or u == v for u, v in zip(a.tolist(), b.tolist()))
             if not same:
                 info[tag] = 'epoch %d column %s differs' % (e, col); return False
+            if g[col].dtype != x[col].dtype:      # (also for an epoch without any cycle: the columns keep their types)
+                info[tag] = 'epoch %d column %s has dtype %s, the flattened analysis has %s' % (e, col, g[col].dtype, x[col].dtype); return False
     return True
 
 def evaluate(ctx, cases):
@@ -94,12 +96,26 @@ def evaluate(ctx, cases):
             else:
                 L = int(r.integers(50, len(x)))
             df = df.copy(); df['rid'] = np.arange(len(df))
+            n_all = len(x)
+            if c['L_seed'] % 3 == 0:
+                # SUB-epoching: the table of the first epoch (epoch-relative samples; its last cycle may close exactly on sample L, the length of the
+                # 'recording' it is now cut from) is epoched again
+                try:
+                    first = [t for t in implutil.quiet(epoch_df, df, len(x), L) if len(t) >= 2]
+                except Exception:
+                    first = []
+                if first:
+                    df = first[0].copy(); df['rid'] = np.arange(len(df)); n_all = L
+                    L = max(10, L // int(r.integers(2, 4)))
+                    nxt = df['sample_next_' + side].values
             try:
-                got = implutil.quiet(epoch_df, df, len(x), L)
+                got = implutil.quiet(epoch_df, df, n_all, L)
+                got2 = implutil.quiet(epoch_df, df, n_all, L)            # (the same table again: the caller's table is left as it was)
+                if len(got2) != len(got) or not all(a.equals(b) for a, b in zip(got, got2)): got = 'SecondCallDiffers'
             except Exception as e:
                 got = type(e).__name__
-            reqs += ['epoch.model %s %d %d' % (_rows_enc(df, c['center']), len(x), L), 'epoch.spec %s %d %d' % (_rows_enc(df, c['center']), len(x), L)]
-            plan.append(dict(kind='epoch', df=df, got=got, L=L, n=len(x), j=len(reqs) - 2, coincide=bool(len(nxt) and any(v % L == 0 for v in nxt))))
+            reqs += ['epoch.model %s %d %d' % (_rows_enc(df, c['center']), n_all, L), 'epoch.spec %s %d %d' % (_rows_enc(df, c['center']), n_all, L)]
+            plan.append(dict(kind='epoch', df=df, got=got, L=L, n=n_all, j=len(reqs) - 2, coincide=bool(len(nxt) and any(v % L == 0 for v in nxt))))
         else:
             x, fs, fr = _flat_signal(c['seed'], c['n_ep'] * c['L'])
             sigs = implutil.layout_nd(x.reshape(c['n_ep'], c['L']), c['seed'])          # C / Fortran / read-only / strided memory layout
